@@ -332,7 +332,12 @@ func c14Run(s *c14Scn) verdict {
 		srv.PasswordSeen = nil
 		srv.mu.Unlock()
 
-		d2, err2 := generic.NewDriver(host, opts...)
+		// ... through a new driver or, every other time, through the same driver object opened again
+		d2, err2 := d, error(nil)
+		if s.idx%2 == 1 {
+			d2, err2 = generic.NewDriver(host, opts...)
+		}
+
 		if err2 == nil {
 			var o2 error
 
